@@ -4,7 +4,8 @@ import numpy as np
 
 from harness import circgen as cg, logicsim_corr as lc, oracle_net as on, simcheck as sk
 
-THEOREMS = ['C02_dispatch8_spec', 'C02_dispatch4_spec', 'C02_lanes', 'C02_x_sound', 'C02_proj8', 'C02_bool_is_2valued', 'C02_gate_by_gate', 'C02_end_to_end_default']
+THEOREMS = ['C02_dispatch8_spec', 'C02_dispatch4_spec', 'C02_lanes', 'C02_x_sound', 'C02_proj8', 'C02_bool_is_2valued', 'C02_gate_by_gate', 'C02_end_to_end_default',
+            'C02_logicsim_model_correct']
 
 
 def check_lane_semantics(c, m, stim, s1, mask):
@@ -90,7 +91,9 @@ def run(ck):
     ck.obligation(f'Coq model (SimOps.build + memory-level c_prop with spec_prim) = LogicSim(m=4|8) on {len(coq_cases)} lanes',
                   allok and not mism, 'correspondence', f'failing cases {mism[:10]}')
     ck.trust('modelled, not verified: SimOps.__init__, LogicSim.s_to_c/c_to_s (Model/SimOps.v, Model/LogicSimModel.v; correspondence); '
-             'the circuit-level theorems are stated over line-level op-list semantics, the memory map is tied by C08 and correspondence')
+             'proved about that model (Proofs/LogicSimGlue.v, C02_logicsim_model_correct): for every well-formed acyclic netlist of known gates, any '
+             'c_reuse / strip_forks and any stimulus the compared entry point sim_case8 returns the gate-by-gate composition of the documented '
+             'operators; outside that domain the memory map is tied by C08 certificates and correspondence')
     for kind, desc, what in fails[:5]:
         ck.fail(f'logicsim{desc["m"]}:{kind}', f'LogicSim(m={desc["m"]}) ' + what, {'component': 'logic_sim.LogicSim', 'input': desc, 'actual': what})
     if not fails:
